@@ -425,6 +425,8 @@ static void e2e(void) {
  *                             P:<len>:<fnv> handed on as it is | E<code> other error
  */
 static int peer_hs, peer_hc;
+static long peer_cur_body = -1;   /* body index of the item being injected (-1: by tag) */
+static int peer_reject;           /* 0 accept; 1: 4.01, 2: 4.01 + Echo, 3: 4.03 for the first delivery */
 static char peer_res[128];
 static long peer_seed;
 
@@ -450,11 +452,17 @@ static void hnd_put_peer(coap_resource_t *r, coap_session_t *s, const coap_pdu_t
   unsigned long t = o ? coap_decode_var_bytes(coap_opt_value(o), coap_opt_length(o)) : 0;
   coap_str_const_t *up = coap_resource_get_uri_path(r);
   if (up && up->length == 1 && up->s[0] == 'u') t += 50;      /* bodies of resource u */
+  if (peer_cur_body >= 0) t = (unsigned long)peer_cur_body;
   if (coap_get_block_b(NULL, req, COAP_OPTION_BLOCK1, &b))
     snprintf(peer_res, sizeof(peer_res), "P:%zu:%08x", len, fnv(d, d ? len : 0));
   else
     snprintf(peer_res, sizeof(peer_res), "D:%zu:%08x:%c", len, fnv(d, d ? len : 0), peer_eq(t, d, d ? len : 0));
   coap_pdu_set_code(resp, COAP_RESPONSE_CODE_CHANGED);
+  if (peer_reject && peer_hs == 1) {
+    /* the application turns the first upload down */
+    coap_pdu_set_code(resp, peer_reject == 3 ? COAP_RESPONSE_CODE_FORBIDDEN : COAP_RESPONSE_CODE_UNAUTHORIZED);
+    if (peer_reject == 2) coap_add_option(resp, COAP_OPTION_ECHO, 4, (const uint8_t *)"echo");
+  }
 }
 
 static coap_response_t hnd_resp_peer(coap_session_t *s, const coap_pdu_t *sent, const coap_pdu_t *rcv,
@@ -484,6 +492,11 @@ static void peer(void) {
   body_len = (size_t)atol(vtok[2]);
   long seed = atol(vtok[3]);
   int szx_cfg = atoi(vtok[4]), single = atoi(vtok[5]);
+  /* vtok[5]: 1 single-body; 3/5/7 single-body and the handler answers the first delivered body
+   * with 4.01 / 4.01 + Echo / 4.03 */
+  peer_reject = single >= 3 ? (single - 1) / 2 : 0;
+  single = single ? 1 : 0;
+  peer_hs = peer_hc = 0;
   peer_seed = seed;
   body = (uint8_t *)malloc(body_len ? body_len : 1);
   vn_now = 1000;
@@ -527,10 +540,13 @@ static void peer(void) {
     unsigned num, m, szx;
     long off, len;
     char size_s[32], tag_s[32];
-    if (sscanf(vtok[i], "%u/%u/%u/%31[^/]/%ld/%ld/%31s", &num, &m, &szx, size_s, &off, &len, tag_s) != 7) {
+    long bidx = -1;
+    /* optional 8th field: body index (a second transfer under the same Request-Tag / ETag) */
+    if (sscanf(vtok[i], "%u/%u/%u/%31[^/]/%ld/%ld/%31[^/]/%ld", &num, &m, &szx, size_s, &off, &len, tag_s, &bidx) < 7) {
       printf("BADITEM ");
       continue;
     }
+    peer_cur_body = bidx;
     int res_u = 0;
     size_t tl = strlen(tag_s);
     if (tl > 0 && tag_s[tl - 1] == 'u') {          /* "<n>u": the request goes to resource u */
@@ -570,6 +586,7 @@ static void peer(void) {
     }
     {
       unsigned long t = (strcmp(tag_s, "-") ? strtoul(tag_s, NULL, 10) : 0) + (res_u ? 50 : 0);
+      if (bidx >= 0) t = (unsigned long)bidx;
       for (long q = 0; q < len; q++) body[q] = peer_byte(t, (size_t)(off + q));
       if (len > 0) coap_add_data(p, (size_t)len, body);
     }
